@@ -9,6 +9,14 @@ var $getStackDepth = () => {
 
 var $panicStackDepth = null, $panicValue;
 var $callDeferred = (deferred, jsErr, fromPanic) => {
+    $runDeferred(deferred, jsErr, fromPanic);
+    if (!fromPanic && $curGoroutine.exit && !$curGoroutine.asleep) {
+        /* runtime.Goexit() is terminating this goroutine: after this frame's deferred
+           calls have run, keep unwinding instead of returning to the caller. */
+        throw null;
+    }
+};
+var $runDeferred = (deferred, jsErr, fromPanic) => {
     if (!fromPanic && deferred !== null && $curGoroutine.deferStack.indexOf(deferred) == -1) {
         throw jsErr;
     }
@@ -19,7 +27,7 @@ var $callDeferred = (deferred, jsErr, fromPanic) => {
         } catch (err) {
             newErr = err;
         }
-        $callDeferred(deferred, newErr);
+        $runDeferred(deferred, newErr);
         return;
     }
     if ($curGoroutine.asleep) {
@@ -96,7 +104,7 @@ var $callDeferred = (deferred, jsErr, fromPanic) => {
         // We are at the end of the function, handle the error or re-throw to
         // continue unwinding if necessary, or simply stop unwinding if we got far
         // enough.
-        $callDeferred(deferred, e, fromPanic);
+        $runDeferred(deferred, e, fromPanic);
     } finally {
         if (localPanicValue !== undefined) {
             if ($panicStackDepth !== null) {
